@@ -87,6 +87,7 @@ class Ctx(object):
         self.unresolved_calls = 0
         self.functions_analysed = set()
         self._cfgs = {}
+        self._relabel = None
 
     # -- obligations ---------------------------------------------------------
     def _where(self, func, node):
@@ -105,12 +106,33 @@ class Ctx(object):
     def ob(self, rule, func, node, ok, detail='', path=None, evals=1,
            construct=None, nontrivial=True, note=None, file=None):
         fq, ffile, line = self._where(func, node)
+        if self._relabel is not None:
+            # a clause shared with a sibling property is reported under the
+            # rule id it has in *this* property
+            rule = self._relabel.get(rule, self._relabel.get(
+                rule.split('.')[0], rule))
         if construct is None:
             construct = norm_text(node) if node is not None else ''
         obj = Ob(rule, fq, construct, bool(ok), detail, file or ffile, line,
                  path, evals, nontrivial, note)
         self.obs.append(obj)
         return obj
+
+    def shared(self, mapping):
+        """Context manager: obligations recorded inside are relabelled
+        (exact rule id, else property prefix) - for clauses two properties
+        share (each property reports them under its own rule id)."""
+        ctx = self
+
+        class _Scope(object):
+            def __enter__(self_):
+                self_.saved = ctx._relabel
+                ctx._relabel = dict(mapping)
+
+            def __exit__(self_, *exc):
+                ctx._relabel = self_.saved
+                return False
+        return _Scope()
 
     def ok(self, rule, func, node, detail='', **kw):
         return self.ob(rule, func, node, True, detail, **kw)
